@@ -26,7 +26,8 @@ RULE = ("Strata: (main) seeded marker pairs over the well-defined atom classes, 
         "{==,!=} on every subset of names; (prerelease) main markers on pre/dev/post interpreters; (pyin) with "
         "python_version in/not in lists; (revin) with literal-on-the-left in/not in. One evaluation = one environment "
         "decided for one monitored event. Non-trivial/distinct: operand-pair texts whose result is not one of the "
-        "operands verbatim.")
+        "operands verbatim."
+        " Size strata (light mode): order twins, compounds with 33-70 children, intersections of three flat 7-9-way unions decided at the tree nodes; witness environments for every conjunction.")
 ASSUMPTIONS = [
     "the oracle is the library's own evaluate() on arguments vs result (the statement itself); C03 ties evaluate() to packaging",
     "environments are sampled from operand-derived critical values: python_version is always major.minor of python_full_version",
